@@ -179,11 +179,12 @@ def batch_run(cases):
 def shard(idx, n, tier):
     env.setup_paths()
     import hdl21  # noqa
+    par.server()
     res = core.Result()
     mine = [c for k, c in enumerate(box(tier == "thorough")) if k % n == idx]
     B = 1500
     for i in range(0, len(mine), B):
-        r = par.in_child(batch_run, mine[i:i + B], timeout=900)
+        r = par.pristine(batch_run, mine[i:i + B], timeout=900)
         if par.is_exc(r):
             res.harness_error("batch crashed: %s %s" % (r[1], r[3][-800:]))
         else:
@@ -216,7 +217,7 @@ def shard(idx, n, tier):
 
     def flush():
         if batch:
-            r = par.in_child(batch_run, list(batch), timeout=900)
+            r = par.pristine(batch_run, list(batch), timeout=900)
             if par.is_exc(r):
                 res.harness_error("batch crashed: %s %s" % (r[1], r[3][-800:]))
             else:
@@ -249,7 +250,7 @@ def shard(idx, n, tier):
         if not ({"bundle_conn", "anon_bundle", "subbundle_ref", "bundle_portref"} & fs):
             res.notes["design_without_bundle_connection"] += 1
             return
-        v = par.in_child(eval_case, spec)
+        v = par.pristine(eval_case, spec)
         if par.is_exc(v):
             res.harness_error("child: %s %s" % (v[1], v[2]))
             return
